@@ -184,6 +184,15 @@ static std::string handle(const std::vector<std::string>& a) {
     JsonVariantConst va = unboundA ? JsonVariantConst() : da.as<JsonVariantConst>();
     JsonVariantConst vb = unboundB ? JsonVariantConst() : db.as<JsonVariantConst>();
     std::string r = bits12(va, vb);
+    // the left operand against ITSELF (the very same stored value: JsonArrayConst::operator== has a same-pointer
+    // shortcut the two-document comparison never takes): the six answers must still obey the coherence laws
+    {
+      std::string q = bits12(va, va);
+      bool eq = q[0] == '1', ne = q[1] == '1', lt = q[2] == '1', le = q[3] == '1', gt = q[4] == '1', ge = q[5] == '1';
+      bool coherent = ne == !eq && le == (lt || eq) && ge == (gt || eq) && (int)lt + (int)eq + (int)gt <= 1 &&
+                      q.substr(0, 6) == q.substr(6, 6) && !lt && !gt;
+      if (!coherent) r += " SELF-INCOHERENT:" + q;
+    }
     // the same right operand as a C++ scalar / string: must give the same answers
     const detail::VariantData* d = detail::VariantAttorney::getData(vb);
     if (d) {
